@@ -630,6 +630,96 @@ def asyncio_wait_for(ip, args, kwargs, node):
     return VCoro(VBuiltin("wait_for.run", run), [], {}, node)
 
 
+class VPendingTask(V):
+    """asyncio.ensure_future(<coroutine>) of a callee known by contract: the invocation is OPEN (ghost.open_invocations) until
+    the task is awaited / waited to completion or cancelled"""
+    kind = "ptask"
+
+    def __init__(self, coro):
+        self.coro = coro
+        self.state = "pending"      # pending | done | raised | cancelled
+        self.value = None
+        self.exc = None
+
+
+def _open(ip, delta):
+    g = ip.st.ghost.get("open_invocations")
+    if g is not None:
+        ip.st.ghost["open_invocations"] = VInt(g.term + delta)
+
+
+def asyncio_ensure_future(ip, args, kwargs, node):
+    co = args[0]
+    if not isinstance(co, VCoro):
+        raise Unsupported(f"ensure_future of {co!r}")
+    _open(ip, 1)
+    return VPendingTask(co)
+
+
+def _finish_task(ip, t, node):
+    """the wrapped coroutine runs to its end now (by its contract): result or exception is kept in the task"""
+    from .ops import PyRaise as _PR
+    try:
+        t.value = ip.do_await(t.coro, node)
+        t.state = "done"
+    except _PR as pr:
+        if pr.exc.cls in ("CancelledError",):
+            raise
+        t.exc = pr.exc
+        t.state = "raised"
+    _open(ip, -1)
+
+
+def asyncio_wait(ip, args, kwargs, node):
+    """asyncio.wait(tasks, timeout=...): returns (done, pending) and does NOT cancel what is still pending"""
+    try:
+        tasks = list(ip.iterate(args[0]))
+    except Unsupported:
+        tasks = None
+    if tasks is None or not tasks or not all(isinstance(t, VPendingTask) for t in tasks):
+        return ip.call_function(VContractFn("asyncio.wait"), args, kwargs, node)      # the sidecar's contract (contracts/asyncio_.py)
+
+    def run(ip2, a, k, n):
+        done, pending = [], []
+        for t in tasks:
+            if t.state != "pending":
+                done.append(t)
+            elif kwargs.get("timeout") is not None and ip2.st.choose(2, "wait-timeout") == 1:
+                pending.append(t)           # the timeout fired first: the invocation is still in progress
+            else:
+                _finish_task(ip2, t, n)
+                done.append(t)
+        return VTuple([VTuple(done), VTuple(pending)])
+    return VCoro(VBuiltin("asyncio.wait.run", run), [], {}, node)
+
+
+def ptask_result(ip, args, kwargs, node):
+    t = args[0]
+    if t.state == "done":
+        return t.value
+    if t.state == "raised":
+        raise PyRaise(t.exc)
+    if t.state == "cancelled":
+        raise_("CancelledError")
+    raise_("InvalidStateError")
+
+
+def ptask_cancel(ip, args, kwargs, node):
+    """task.cancel() on a pending task: the invocation ends (assumption shared with asyncio.wait_for: the actor
+    does not swallow the cancellation)"""
+    t = args[0]
+    if t.state == "pending":
+        t.state = "cancelled"
+        _open(ip, -1)
+        ip.st.assumed_used.add("assumed: a cancelled actor invocation ends (CancelledError is not swallowed by user code)")
+        return VBool(True)
+    return VBool(False)
+
+
+def ptask_done(ip, args, kwargs, node):
+    return VBool(args[0].state != "pending")
+
+
 def asyncio_create_task(ip, args, kwargs, node):
     """create_task(coro): the coroutine starts running concurrently.  Its observable effect at spawn time is
     given by the sidecar contract `spawn:<Class.method>`; without one the engine stops."""
@@ -697,6 +787,8 @@ def build_lib() -> dict:
     for n in ("FIRST_COMPLETED", "ALL_COMPLETED", "FIRST_EXCEPTION"):
         lib["asyncio"].attrs[n] = VStr(n)
     lib["asyncio"].attrs["wait_for"] = VBuiltin("asyncio.wait_for", asyncio_wait_for)
+    lib["asyncio"].attrs["ensure_future"] = VBuiltin("asyncio.ensure_future", asyncio_ensure_future)
+    lib["asyncio"].attrs["wait"] = VBuiltin("asyncio.wait", asyncio_wait)
     for n in ("CancelledError", "TimeoutError", "QueueEmpty", "QueueFull"):
         lib["asyncio"].attrs[n] = VClass(n)
     basic = VModule("Basic", {"Ack": VClass("BasicAck"), "ConsumeOk": VClass("BasicConsumeOk"), "CancelOk": VClass("BasicCancelOk"),
@@ -740,6 +832,9 @@ def build_lib() -> dict:
         ("str", "startswith"): VBuiltin("str.startswith", str_startswith),
         ("str", "find"): VBuiltin("str.find", str_find),
         ("str", "split"): VBuiltin("str.split", str_split),
+        ("ptask", "result"): VBuiltin("Task.result", ptask_result),
+        ("ptask", "cancel"): VBuiltin("Task.cancel", ptask_cancel),
+        ("ptask", "done"): VBuiltin("Task.done", ptask_done),
     }
     lib["__attrs__"] = {
         ("opaque", "__name__"): lambda ip, b: VStr(z3.Function("name_of", Opaque, z3.StringSort())(b.term)),
